@@ -183,6 +183,41 @@ def return_impl_shape(toks):
     return {"poke_depths": [d for d, _ in ps], "poke_args": [" ".join(a) for _, a in ps]}
 
 
+def register_shape(toks):
+    """the cached registers of the interpreter (ip, active_chunk, active_module) are written together, by load_frame only,
+    and every switch site ends with a call of it: load_fiber, unload_fiber, unwind_stack (return_impl switches through
+    unload_fiber).  A site that assigns a register directly restores a DIFFERENT register set than the others."""
+    REGS = ["ip", "active_chunk", "active_module"]
+
+    def assigned(lo, hi):
+        got = []
+        for r in REGS:
+            for j in find_all_seq(toks, ["self", ".", r, "="], lo, hi):
+                if toks[j + 4].text != "=":      # not `==`
+                    got.append(r)
+                    break
+        return got
+
+    def ends_with_load_frame(name, after=None):
+        o, c = fn_body(toks, name)
+        calls = find_all_seq(toks, ["self", ".", "load_frame", "(", ")"], o, c)
+        lo = o
+        if after is not None:
+            k = find_seq(toks, after, o, c)
+            if k < 0:
+                return False, assigned(o, c)
+            lo = k
+        return any(j > lo for j in calls), assigned(o, c)
+    o, c = fn_body(toks, "load_frame")
+    lf_sets = assigned(o, c)
+    load_ok, load_direct = ends_with_load_frame("load_fiber", ["replace", "("])
+    unload_ok, unload_direct = ends_with_load_frame("unload_fiber", ["poke", "("])
+    unwind_ok, unwind_direct = ends_with_load_frame("unwind_stack", ["truncate", "("])
+    return {"load_frame_sets": lf_sets, "load_fiber_reloads": load_ok, "load_fiber_direct": load_direct,
+            "unload_fiber_reloads": unload_ok, "unload_fiber_direct": unload_direct,
+            "unwind_stack_reloads": unwind_ok, "unwind_stack_direct": unwind_direct}
+
+
 def fiber_call_shape(toks):
     o, c = fn_body(toks, "fiber_call")
     j = find_seq(toks, ["if", "is_new"], o, c)
@@ -216,7 +251,12 @@ def gen_fiber_arms(man):
     uf = unload_fiber_shape(vm)
     ri = return_impl_shape(vm)
     fc = fiber_call_shape(core)
-    man["c09_fiber_arms"] = {"load_fiber": lf, "unload_fiber": uf, "return_impl": ri, "fiber_natives": fc}
+    rg = register_shape(vm)
+    man["c09_fiber_arms"] = {"load_fiber": lf, "unload_fiber": uf, "return_impl": ri, "fiber_natives": fc, "registers": rg}
+    same_set = (rg["load_frame_sets"] == ["ip", "active_chunk", "active_module"] and rg["load_fiber_reloads"]
+                and rg["unload_fiber_reloads"] and rg["unwind_stack_reloads"]
+                and not rg["load_fiber_direct"] and not rg["unwind_stack_direct"]
+                and rg["unload_fiber_direct"] in ([], ["ip"]))   # unload_fiber saves nothing else; `frame.ip = self.ip` is a read
     msg = {"CkFinished": None, "CkCaller": None}
     for name, (kind, lit) in lf["checks"]:
         if name in msg:
@@ -259,6 +299,8 @@ def gen_fiber_arms(man):
         "Definition call_new_exact_arity : bool := %s." % ("true" if fc["new_exact_arity"] else "false"),
         "Definition call_resumed_at_most_one : bool := %s." % ("true" if fc["resumed_at_most_one"] else "false"),
         "Definition yield_at_most_one : bool := %s." % ("true" if fc["yield_at_most_one"] else "false"),
+        "(* registers: ip, active_chunk AND active_module are restored together (load_frame) at every switch site *)",
+        "Definition switch_sites_restore_same_registers : bool := %s." % ("true" if same_set else "false"),
         "Close Scope string_scope.",
     ]
     return "\n".join(lines) + "\n"
